@@ -1,9 +1,53 @@
+import CoupeModel.Model.Dual
 import CoupeModel.Driver.Util
 
 namespace Coupe.Driver.C18
-open Coupe.Driver
+open Coupe.Dual Coupe.Driver
 
-/-- (stub; not built yet) -/
-def handle (_toks : List String) : String := "bad-op"
+def tyOfCode : Nat → Option ElType
+  | 0 => some .vertex
+  | 1 => some .edge
+  | 2 => some .triangle
+  | 3 => some .quadrangle
+  | 4 => some .quadrilateral
+  | 5 => some .tetrahedron
+  | 6 => some .hexahedron
+  | _ => none
+
+/-- `<ty> <count> <refs> <count·npe nodes>` repeated `n` times. -/
+def parseBlocks : Nat → List String → Option (List Block × List String)
+  | 0, rest => some ([], rest)
+  | n + 1, ty :: cnt :: refs :: rest => do
+    let ty ← (parseNat? ty).bind tyOfCode
+    let cnt ← parseNat? cnt
+    let refs ← parseNat? refs
+    let (nodes, rest) ← takeParsed parseNat? (cnt * ty.npe) rest
+    let (bs, rest) ← parseBlocks n rest
+    pure (⟨ty, nodes, refs⟩ :: bs, rest)
+  | _ + 1, _ => none
+
+/-- op: `dual <raw|medit> <threads> <nnodes> <nblocks> {<ty> <count> <refs> <nodes…>}*`
+(the construction mode and the pool size do not reach the model: the output
+must not depend on them).
+out: `ok <size> | <indptr> | <indices> | d<data len> | bary <n|panic> used <m>` -/
+def handle (toks : List String) : String :=
+  match toks with
+  | "dual" :: _mode :: _threads :: nn :: nb :: rest =>
+    match (do
+      let nn ← parseNat? nn
+      let nb ← parseNat? nb
+      let (bs, rest) ← parseBlocks nb rest
+      if rest.isEmpty then some (Mesh.mk nn bs) else none) with
+    | none => "bad-op"
+    | some m =>
+      match run m with
+      | .panicNode => "panic index out of bounds"
+      | .panicLookup => "panic tools/src/lib.rs"
+      | .ok g =>
+        "ok " ++ toString g.size ++ " | " ++ joinNats g.indptr ++ " | " ++ joinNats g.indices
+          ++ " | d" ++ toString g.dataLen
+          ++ " | bary " ++ (match barycentres m with | some n => toString n | none => "panic")
+          ++ " used " ++ toString (usedElementCount m)
+  | _ => "bad-op"
 
 end Coupe.Driver.C18
